@@ -114,9 +114,10 @@ var (
 	reMod                = regexp.MustCompile(`([^(]+)\(*([^)]*)\)*`)
 
 	// Regexp to parse context instruction.
-	reCtxAs  = regexp.MustCompile(`^(?:context|ctx) (\w+),*\s*(\w*)\s*=\s*([\w\s.,:|()"'\[\]]+) as ([\[\]\*\w]*)` + "")
-	reCtxDot = regexp.MustCompile(`^(?:context|ctx) (\w+),*\s*(\w*)\s*=\s*([\w\s.,:|()"'\[\]]+)\.\(([\[\]\*\w]*)\)` + "")
-	reCtx    = regexp.MustCompile(`^(?:context|ctx) (\w+),*\s*(\w*)\s*=\s*([\w\s.,:|()"'\[\]]+)`)
+	// The source may be a literal or carry modifier arguments of any text (negative numbers, "n/a", "50%", {k: v}).
+	reCtxAs  = regexp.MustCompile(`^(?:context|ctx) (\w+),*\s*(\w*)\s*=\s*(.+) as ([\[\]\*\w]*)` + "")
+	reCtxDot = regexp.MustCompile(`^(?:context|ctx) (\w+),*\s*(\w*)\s*=\s*(.+)\.\(([\[\]\*\w]*)\)` + "")
+	reCtx    = regexp.MustCompile(`^(?:context|ctx) (\w+),*\s*(\w*)\s*=\s*(.+)`)
 	reCtxS0  = regexp.MustCompile(`^(?:context|ctx) (\w+),*\s*(\w*)\s*=\s*"+([^"]+)"+`)
 	reCtxS1  = regexp.MustCompile(`^(?:context|ctx) (\w+),*\s*(\w*)\s*=\s*'+([^']+)+'`)
 
